@@ -192,6 +192,44 @@ Definition channel_context (c : channel) : xv :=
        [("address", xtext (ch_address c)); ("name", xtext (ch_name c)); ("uuid", xtext (ch_uuid c))].
 
 (* ------------------------------------------------------------------------------------------------ *)
+(* actions whose EFFECT depends on the contact's URNs (flows/contact.go HasURN, AddURN, RemoveURN,       *)
+(* UpdatePreferredChannel; reached from add_contact_urn / the urns modifier / set_contact_channel)      *)
+
+(* URN.Identity() equality: scheme and path, not display or query.  The candidate is already Normalize()d. *)
+Definition urn_identity_eqb (u v : urn) : bool :=
+  String.eqb (u_scheme u) (u_scheme v) && String.eqb (u_path u) (u_path v).
+
+(* Contact.HasURN *)
+Definition has_urn (us : list urn) (u : urn) : bool := existsb (urn_identity_eqb u) us.
+
+(* Contact.AddURN: appended unless an URN with the same identity is held *)
+Definition add_urn (us : list urn) (u : urn) : list urn := if has_urn us u then us else (us ++ [u])%list.
+
+(* Contact.RemoveURN *)
+Definition remove_urn (us : list urn) (u : urn) : list urn :=
+  if has_urn us u then filter (fun x => negb (urn_identity_eqb x u)) us else us.
+
+Definition set_affinity (u : urn) (a : string) : urn :=
+  {| u_scheme := u_scheme u; u_path := u_path u; u_display := u_display u; u_affinity := a;
+     u_country := u_country u; u_plain := u_plain u; u_fmt := u_fmt u |}.
+
+(* the loop body of UpdatePreferredChannel for a channel c *)
+Definition prefer_step (c : channel) (u : urn) : urn :=
+  let u1 := if String.eqb (u_scheme u) tel && supports c tel then set_affinity u (ch_uuid c) else u in
+  if String.eqb (u_affinity u1) "" && supports c (u_scheme u1) then set_affinity u1 (ch_uuid c) else u1.
+
+(* Contact.UpdatePreferredChannel *)
+Definition update_preferred_channel (ch : option channel) (us : list urn) : list urn :=
+  match ch with
+  | None => map (fun u => set_affinity u "") us
+  | Some c =>
+      if negb (has_role c role_send) then us
+      else let us' := map (prefer_step c) us in
+           (filter (fun u => String.eqb (u_affinity u) (ch_uuid c)) us'
+            ++ filter (fun u => negb (String.eqb (u_affinity u) (ch_uuid c))) us')%list
+  end.
+
+(* ------------------------------------------------------------------------------------------------ *)
 (* contact                                                                                           *)
 
 (* the parts of Contact.Context that are computed without touching a URN are carried as given subtrees *)
